@@ -26,7 +26,7 @@ TECH = {
  "C20": "sanitizer + runtime monitoring: Go race detector over API storms (parallel goroutines, virtual time), deadlock watchdog with stack classifier, every-call-returns oracle, per-writer delivery oracle",
 }
 CAT = {"exploration": "exploration", "fault_enumeration": "fault_enumeration"}
-hook_commits = ["6807719"]
+hook_commits = ["6807719", "cbbdd77"]
 checks = []
 for pid in sorted(props):
     m = props[pid]
